@@ -222,7 +222,18 @@ fn run_diseq_chains(bytes: &[u8], ctx: &Ctx) -> CaseInfo {
     let nfresh = s.below(3);
     let nv = nq + nfresh;
     let var = |s: &mut Source| Term::Var(s.below(nv) as VarId);
-    let item = |s: &mut Source| if s.flag(60) { Term::Int(s.range(0, 2)) } else { Term::Var(s.below(nv) as VarId) };
+    let item = |s: &mut Source| match s.weighted(&[2, 5, 2]) {
+        0 => Term::Int(s.range(0, 2)),
+        1 => Term::Var(s.below(nv) as VarId),
+        // a list or compound around a variable (the right-hand side of a stored pair is then not a variable)
+        _ => {
+            if s.flag(128) {
+                Term::list(vec![Term::Var(s.below(nv) as VarId)])
+            } else {
+                Term::Cmp(crate::ast::Kind::Pair, vec![Term::Var(s.below(nv) as VarId), Term::Int(s.range(0, 1))])
+            }
+        }
+    };
     let mut inner: Vec<Goal> = vec![];
     let nd = 1 + s.below(2);
     for _ in 0..nd {
@@ -369,6 +380,47 @@ fn run_fd_multi(bytes: &[u8], ctx: &Ctx) -> CaseInfo {
     eval_det(&p, "fd-multi-binding", None, ctx)
 }
 
+/// Finite-domain variables that are NOT part of the answer (hidden) get one witness value at
+/// reification; when a tree disequality on a query variable mentions them, the reported
+/// constraint shows that witness - which must not depend on the run.
+fn run_hidden_witness(bytes: &[u8], ctx: &Ctx) -> CaseInfo {
+    use crate::ast::FdGoal;
+    let mut s = Source::new(bytes);
+    let nh = 2 + s.below(3);
+    let h = |i: usize| Term::Var((1 + i) as VarId);
+    let mut inner: Vec<Goal> = vec![];
+    let lo = s.range(0, 2);
+    let hi = s.range(lo + 1, lo + 3);
+    inner.push(Goal::Fd(FdGoal::InFdRange(Term::list((0..nh).map(h).collect()), lo, hi)));
+    let nc = s.below(3);
+    for _ in 0..nc {
+        let (x, y) = (h(s.below(nh)), h(s.below(nh)));
+        inner.push(match s.weighted(&[3, 2, 2]) {
+            0 => Goal::Fd(FdGoal::Diseq(x, y)),
+            1 => Goal::Fd(FdGoal::Lte(x, y)),
+            _ => Goal::Fd(FdGoal::Lt(x, y)),
+        });
+    }
+    let k = 1 + s.below(nh.min(3));
+    let items: Vec<Term> = (0..k).map(|_| h(s.below(nh))).collect();
+    inner.push(match s.below(3) {
+        0 => Goal::Diseq(Term::Var(0), Term::list(items)),
+        1 => Goal::Diseq(Term::list(items), Term::Var(0)),
+        _ => Goal::Diseq(Term::list(vec![Term::Var(0), items[0].clone()]), Term::list(vec![Term::Int(s.range(0, 2)), items[items.len() - 1].clone()])),
+    });
+    if s.flag(80) {
+        let perm = s.permutation(inner.len());
+        inner = perm.into_iter().map(|i| inner[i].clone()).collect();
+    }
+    let p = Program { nq: 1, body: vec![Goal::Fresh((1..=nh as VarId).collect(), inner)] };
+    if std::env::var("PVH_SHOW").is_ok() {
+        eprintln!("SHOW {}", p.show());
+    }
+    let mut info = eval_det(&p, "hidden-fd-witness", None, ctx);
+    info.nontrivial = true;
+    info
+}
+
 fn run_cross(bytes: &[u8], ctx: &Ctx) -> CaseInfo {
     let mut s = Source::new(bytes);
     let (p, kind) = decode(&mut s);
@@ -403,10 +455,15 @@ fn run_lazy(bytes: &[u8], ctx: &Ctx) -> CaseInfo {
     let _ = next;
     let producer = if producer.len() == 1 && producer[0] == Goal::Succeed { vec![Goal::Anyo(vec![Goal::Eq(q.clone(), Term::Int(marker))])] } else { producer };
     // optionally beside a silent diverger or a finite branch
-    let body = match s.below(3) {
+    let body = match s.below(6) {
         0 => producer,
         1 => vec![Goal::Conde(vec![vec![Goal::Never], producer])],
-        _ => vec![Goal::Conde(vec![producer, vec![Goal::Eq(q.clone(), Term::Int(99))]])],
+        2 => vec![Goal::Conde(vec![producer, vec![Goal::Eq(q.clone(), Term::Int(99))]])],
+        // beside a depth-first block that searches for ever without an answer: a bare diverger,
+        // or a depth-first disjunction whose first / second clause diverges
+        3 => vec![Goal::Conde(vec![vec![Goal::Dfs(vec![Goal::Call(Rel::Diverge, vec![])])], producer])],
+        4 => vec![Goal::Conde(vec![vec![Goal::Dfs(vec![Goal::Conde(vec![vec![Goal::Call(Rel::Diverge, vec![])], vec![Goal::Eq(q.clone(), Term::Int(98))]])])], producer])],
+        _ => vec![Goal::Conde(vec![producer, vec![Goal::Dfs(vec![Goal::Conde(vec![vec![Goal::Eq(q.clone(), Term::Int(98))], vec![Goal::Call(Rel::Diverge, vec![])]])])]])],
     };
     let p = Program { nq: 2, body };
     let mut info = CaseInfo::default();
@@ -450,6 +507,7 @@ pub fn def() -> PropertyDef {
             Family { name: "determinism-scale", max_len: 96, quick: 3_000, thorough: 30_000, run: run_det_scale },
             Family { name: "diseq-chains", max_len: 64, quick: 30_000, thorough: 600_000, run: run_diseq_chains },
             Family { name: "fd-multi-binding", max_len: 64, quick: 60_000, thorough: 400_000, run: run_fd_multi },
+            Family { name: "hidden-fd-witness", max_len: 48, quick: 30_000, thorough: 400_000, run: run_hidden_witness },
         ],
         fixed: vec![],
         witnesses: vec![],
